@@ -16,7 +16,9 @@ EXPLANATION = (
     'nest over the n-best lists numbers sentences on the outer loop (from 1; Jigg ids from 0) and writes the outer index '
     'for every tree of the inner loop; R7.4 each encoder\'s recursive walk separates leaves from inner nodes, recurses '
     'over all children in order and reads the category from node.cat.  That the eleven decoded outputs are equal for '
-    'every tree and token needs decoders and values and is not decided.')
+    'every tree and token needs decoders and values and is not decided.'
+    ' No default argument or module-level binding of the printer modules may evaluate the active language (it is set after import).'
+)
 TRUSTED = ['CPython ast', 'sa/pysym.py path walker', 'rule table DESIGN.md C07']
 
 CONLL = 'depccg/printer/conll.py'
